@@ -20,6 +20,7 @@ var noopPackages = map[string]bool{
 	"github.com/cosmos/cosmos-sdk/telemetry":          true,
 	"github.com/armon/go-metrics":                     true,
 	"github.com/prometheus/client_golang/prometheus":  true,
+	"github.com/prometheus/client_golang/prometheus/promauto": true,
 }
 
 var knownGlobals = map[string]func(p *Path) Value{}
@@ -42,7 +43,7 @@ func lookupIntrinsic(fn *ssa.Function) (Intrinsic, bool) {
 		}, true
 	}
 	if fn.Pkg != nil && noopPackages[fn.Pkg.Pkg.Path()] {
-		return func(p *Path, fn *ssa.Function, args []Value) Value { return p.zeroResults(fn) }, true
+		return func(p *Path, fn *ssa.Function, args []Value) Value { return p.opaqueResult(fn) }, true
 	}
 	if o := fn.Origin(); o != nil && o != fn {
 		if f, ok := intrinsics[o.String()]; ok {
